@@ -253,6 +253,16 @@ func lkSetEnv(e lkEnv) {
 	}
 }
 
+// lkNeutral: on lines that open a screen (op SC) the field XTermLike is taken from the pristine value (see execLookup)
+func lkNeutral(t, pris *terminfo.Terminfo, sc bool) *terminfo.Terminfo {
+	if t == nil || !sc {
+		return t
+	}
+	c := *t
+	c.XTermLike = pris.XTermLike
+	return &c
+}
+
 type lkOp struct {
 	kind string
 	args []string
@@ -438,8 +448,10 @@ func execLookup(line string) h.Result {
 	}
 	prisRes := make([]pris, len(ops))
 	hasAdd := false
+	scLine := false
 	for _, o := range ops {
 		hasAdd = hasAdd || o.kind == "A"
+		scLine = scLine || o.kind == "SC"
 	}
 	for i, o := range ops {
 		if o.kind != "L" {
@@ -532,6 +544,18 @@ func execLookup(line string) h.Result {
 			terminfo.AddTerminfo(t)
 			adds = append(adds, added{t, *t})
 			tag["add"] = true
+		case "SC":
+			// an application opens a screen on this terminal (constructor, Init, a draw, Fini) between two lookups: the
+			// database is not an argument of that — what later lookups return must not change (a no-op for the model)
+			name := lkUntok(lkArg(o, 0))
+			if t, _ := terminfo.LookupTerminfo(name); t != nil {
+				if scr, err := tcell.NewTerminfoScreenFromTtyTerminfo(NewFakeTty(20, 4), t); err == nil && scr.Init() == nil {
+					scr.SetContent(0, 0, tcell.RuneHLine, nil, tcell.StyleDefault)
+					scr.Show()
+					scr.Fini()
+				}
+				tag["screen-opened"] = true
+			}
 		case "L":
 			name := lkUntok(lkArg(o, 0))
 			var t *terminfo.Terminfo
@@ -567,8 +591,8 @@ func execLookup(line string) h.Result {
 			envs := fmt.Sprintf("COLORTERM=%q TCELL_TRUECOLOR=%q", env.ct, env.tt)
 			if (t != nil) != pr.found {
 				add("lookup-order-dependent", fmt.Sprintf("after looking up %s, LookupTerminfo(%q) [%s] found=%v, but found=%v in a pristine registry", strings.Join(prev, ", "), name, envs, t != nil, pr.found))
-			} else if t != nil && !lkSame(t, &pr.val) {
-				if f, got, exp := lkDiff(t, &pr.val); f != "" {
+			} else if tv := lkNeutral(t, &pr.val, scLine); t != nil && !lkSame(tv, &pr.val) {
+				if f, got, exp := lkDiff(tv, &pr.val); f != "" {
 					add("lookup-order-dependent", fmt.Sprintf("after looking up %s, LookupTerminfo(%q) [%s] returns %s = %s, but %s = %s when looked up in a pristine registry", strings.Join(prev, ", "), name, envs, f, got, f, exp))
 					tag["order-dependent"] = true
 				}
@@ -630,6 +654,12 @@ func execLookup(line string) h.Result {
 		tag["registry-edited"] = true
 	}
 	res.Obs = strings.Join(obs, " | ")
+	if scLine {
+		// the pinned constructor writes ti.XTermLike into the description it is given (tscreen.go prepareKeys), which for a
+		// looked-up name is the registered entry: outside what the statement constrains (it speaks of lookups), so that field
+		// is neutralised above and the hashes of such lines are not compared with the model
+		res.Obs = "SKIP a screen was opened between the lookups: judged by the oracle only"
+	}
 	res.Nontrivial = tag["found"] || tag["db"]
 	for t := range tag {
 		res.Tags = append(res.Tags, t)
@@ -918,6 +948,14 @@ func genLookup(g *h.Gen) {
 				ops = append(ops, "L "+lkTok(pick()))
 			}
 		}
+		if r.Chance(15) { // a screen is opened on one of the names in between
+			for j, o := range ops {
+				if strings.HasPrefix(o, "L ") && j+1 < len(ops) && r.Chance(50) {
+					ops = append(ops[:j+1], append([]string{"SC " + o[2:]}, ops[j+1:]...)...)
+					break
+				}
+			}
+		}
 		if r.Chance(35) { // through the root package's wrapper tcell.LookupTerminfo (what NewTerminfoScreen calls)
 			for j, o := range ops {
 				if strings.HasPrefix(o, "L ") && r.Chance(60) {
@@ -926,6 +964,11 @@ func genLookup(g *h.Gen) {
 			}
 		}
 		g.Emit("lookup %s", strings.Join(ops, "; "))
+	}
+	// a screen opened on the terminal between two lookups of it (entries with padding in their ACS strings first)
+	for _, n := range []string{"vt220", "vt200", "vt420", "vt100", "xterm", "xterm-256color", "linux", "sun-color", "wy60"} {
+		g.Emit("lookup L %s; SC %s; L %s", lkTok(n), lkTok(n), lkTok(n))
+		g.Emit("lookup SC %s; L %s; D %s", lkTok(n), lkTok(n), lkTok(n))
 	}
 	// malformed stream
 	g.Emit("lookup L")
